@@ -716,7 +716,7 @@ impl Engine for E7 {
         serde_json::json!({
             "real": ["all seven statsd_* macros and _generate_impl (cadence-macros/src/macros.rs)", "set_global_default / get_global_default / is_global_default_set on the real process-global HOLDER (one fresh process per case)", "StatsdClient, MetricBuilder::send"],
             "stub": ["the sinks of the global client and of the twin client (scripted: refuse the i-th emit)"],
-            "note": "no scheduler is involved; the history dimension is {unset, set, second set} x fault script; argument forms are a compiled-in matrix (22 macro/value-type combinations x 0..3 tags) with runtime-chosen strings and values"
+            "note": "the sequential phase involves no scheduler; the concurrent phase (half of the cases) runs 2-3 simulated threads under the dsim kernel inside the child; the history dimension is {unset, set, second set, concurrent use, late set} x fault script; argument forms are a compiled-in matrix (22 macro/value-type combinations x 0..3 tags) with runtime-chosen strings and values"
         })
     }
 
